@@ -4,6 +4,7 @@ import Restful.Lemmas.TieImpBase
 namespace Restful
 namespace TieImp
 open Imp
+set_option linter.unusedSimpArgs false
 
 /-- a built route of the model with its compiled expression, as RouterJSR311 reads it (`mk` supplies the
     fields the function does not read) -/
@@ -121,6 +122,28 @@ theorem keep_loop (rem : Str) (L : List ImpGen.GoRouteCandidate)
     rw [ih (k + 1) _ (by omega), List.drop_eq_getElem_cons hk]
     simp only [List.map_cons, List.append_assoc, List.singleton_append]
 
+/-- the same loop written over the candidates themselves (`for _, each := range candidates[1:]`) -/
+theorem keep_loop_list (rem : Str) (L : List ImpGen.GoRouteCandidate)
+    (hL : ∀ c ∈ L, ∃ pe, c.route.pathExpr = some pe ∧ (pe.Matcher rem).isEmpty = false)
+    (f : ImpGen.GoRouteCandidate → List ImpGen.GoRoute → Option (ForInStep (List ImpGen.GoRoute)))
+    (hf : ∀ e pe acc, e.route.pathExpr = some pe → (pe.Matcher rem).isEmpty = false →
+      f e acc = some (.yield (acc ++ [e.route]))) :
+    ∀ (acc : List ImpGen.GoRoute), forIn L acc f = some (acc ++ L.map (·.route)) := by
+  induction L with
+  | nil => intro acc; simp
+  | cons e L ih =>
+    intro acc
+    obtain ⟨pe, h1, h2⟩ := hL e List.mem_cons_self
+    rw [List.forIn_cons, hf e pe acc h1 h2]
+    simp only [Option.bind_eq_bind, Option.bind_some]
+    rw [ih (fun c hc => hL c (List.mem_cons_of_mem _ hc))]
+    simp
+
+/-- `xs[1:]` of a non-empty slice -/
+theorem sliceFrom_one {α : Type} (e : α) (L : List α) : sliceFrom (e :: L) 1 = some L := by
+  simp [sliceFrom, slice, len]
+  omega
+
 end T10
 
 /-- jsr311.go `RouterJSR311.selectRoutes`: the routes whose expression matches the rest of the path up to
@@ -185,15 +208,25 @@ theorem jsr_select_routes (E : ReEnv) (X : ImpGen.Ext)
         | nil => simp at hperm
         | cons e L' =>
           rw [if_neg (by simp [len]; omega)]
-          rw [show (1 : Int) = ((1 : Nat) : Int) from rfl, T2.range_nat_len,
-            show at? (e :: L') 0 = some e from rfl]
-          simp only [Option.bind_some]
-          rw [T10.keep_loop remainder (e :: L') hmem _ ?hf2 _ 1 _ (by simp; omega)]
-          case hf2 =>
-            intro k e' pe' acc h1 h2 h3
-            simp only [T2.at?_nat, h1, h2, h3, Option.bind_some, push]
-            rfl
-          simp
+          -- the second loop: by index from 1 (`for c := 1; c < len(…); c++`) or over the tail (`range …[1:]`)
+          first
+          | (rw [show (1 : Int) = ((1 : Nat) : Int) from rfl, T2.range_nat_len,
+              show at? (e :: L') 0 = some e from rfl]
+             simp only [Option.bind_some]
+             rw [T10.keep_loop remainder (e :: L') hmem _ ?hf2 _ 1 _ (by simp; omega)]
+             case hf2 =>
+               intro k e' pe' acc h1 h2 h3
+               simp only [T2.at?_nat, h1, h2, h3, Option.bind_some, push]
+               rfl
+             simp [push])
+          | (rw [T10.sliceFrom_one, show at? (e :: L') 0 = some e from rfl]
+             simp only [Option.bind_some]
+             rw [T10.keep_loop_list remainder L' (fun c hc => hmem c (List.mem_cons_of_mem _ hc)) _ ?hf3]
+             case hf3 =>
+               intro e' pe' acc h2 h3
+               simp only [h2, h3, Option.bind_some, push]
+               rfl
+             simp [push])
 
 def genSvcJ (E : ReEnv) (routesOf : Service → List ImpGen.GoRoute) (s : Service) : ImpGen.GoWebService :=
   { pathExpr := genPE E s.rootPath, routes := routesOf s }
